@@ -812,7 +812,14 @@ pub fn rich_file(c: &mut Choice, o: &RichOpts) -> Rich {
                 let rec = match c.below(3) {
                     0 => NoteRec { n_type: 1, name: b"GNU\0".to_vec(), desc: vec![0, 0, 0, 0, 2, 0, 0, 0, 6, 0, 0, 0, 32, 0, 0, 0] },
                     1 => {
-                        let l = c.below(24) as usize;
+                        // (build ids as tool chains make them: 16, 20, 32 or 64 bytes, or anything up to 23)
+                        let l = match c.below(6) {
+                            0 => 32,
+                            1 => 20,
+                            2 => 16,
+                            3 => 64,
+                            _ => c.below(24) as usize,
+                        };
                         NoteRec { n_type: 3, name: b"GNU\0".to_vec(), desc: c.bytes(l) }
                     }
                     _ => {
